@@ -1,0 +1,25 @@
+//go:build verif
+
+// Contracts for the tvc verifier (/verif). Comment-only: with the `verif` tag off this file does not exist,
+// with it on it adds no code. Syntax: /verif/DESIGN.md appendix A.
+
+package types
+
+//@ for C15 C12
+
+//@ func BuildIPNet
+//@   panics
+
+//@ func ToIPSet
+//@   panics
+
+//@ func ToIPNetSet
+//@   panics
+
+//@ func IPSet.SetIP
+//@   requires i != nil
+//@   panics
+
+//@ func IPNetSet.SetIPNet
+//@   requires i != nil
+//@   panics
